@@ -519,7 +519,7 @@ Proof.
   - replace (days_from_civil (year t) (month t) (day t) - days_from_civil (year t) (month t) 1) with (day t - 1)
       by (unfold days_from_civil; lia).
     lia.
-  - intros k. now rewrite !weekday_in_month.
+  - intros k. now rewrite (weekday_in_month _ _ k), (weekday_in_month _ _ (day t)).
 Qed.
 
 Lemma F_ok t : 1 <= day t <= 31 -> render_directive D_F t = spec_directive D_F t.
@@ -550,10 +550,11 @@ Proof.
   unfold ww_check in C. rewrite !andb_true_iff, Z.eqb_eq, !Z.leb_le in C. destruct C as [[C1 C2] C3].
   assert (weekday y (month t) (day t) = (w1 + (yd - 1)) mod 7) as ->.
   { unfold w1, yd, weekday, day_of_year, days_from_civil.
-    change (days_before_month y 1) with (0 + (if (2 <? 1) && is_leap y then 1 else 0)). cbn [Z.ltb Z.compare Pos.compare andb]. lia. }
+    change (days_before_month y 1) with (0 + (if (2 <? 1) && is_leap y then 1 else 0)). cbn [Z.ltb Z.compare Pos.compare Pos.compare_cont andb].
+    rewrite Z.add_mod_idemp_l by lia. f_equal. clear. lia. }
   replace (days_from_civil y (month t) (day t) - days_from_civil y 1 1 + 1) with yd.
   2:{ unfold yd, day_of_year, days_from_civil.
-      change (days_before_month y 1) with (0 + (if (2 <? 1) && is_leap y then 1 else 0)). cbn [Z.ltb Z.compare Pos.compare andb]. lia. }
+      change (days_before_month y 1) with (0 + (if (2 <? 1) && is_leap y then 1 else 0)). cbn [Z.ltb Z.compare Pos.compare Pos.compare_cont andb]. lia. }
   rewrite count_from_shift.
   rewrite (count_from_ext _ (fun i => (w1 + i) mod 7 =? 0)).
   - lia.
@@ -586,19 +587,19 @@ Proof.
   intros Hnj Hn Hus. unfold micro_prefix, istr.
   rewrite (micro_prefix_digits n j) by (try assumption; lia).
   f_equal. f_equal. rewrite Z2N.inj_div by (try apply Z.pow_nonneg; lia).
-  rewrite Z2N.inj_pow by lia. now rewrite nat_N_Z.
+  rewrite Z2N.inj_pow by lia. rewrite <- nat_N_Z, N2Z.id. reflexivity.
 Qed.
 
 Lemma S_ok t : 0 <= micro t < 1000000 -> render_directive D_S t = spec_directive D_S t.
-Proof. intros H. change (render_directive D_S t) with (micro_prefix 1 t). now rewrite (micro_dir 1 5). Qed.
+Proof. intros H. change (render_directive D_S t) with (micro_prefix 1 t). rewrite (micro_dir 1 5) by (try assumption; lia). reflexivity. Qed.
 Lemma SS_ok t : 0 <= micro t < 1000000 -> render_directive D_SS t = spec_directive D_SS t.
-Proof. intros H. change (render_directive D_SS t) with (micro_prefix 2 t). now rewrite (micro_dir 2 4). Qed.
+Proof. intros H. change (render_directive D_SS t) with (micro_prefix 2 t). rewrite (micro_dir 2 4) by (try assumption; lia). reflexivity. Qed.
 Lemma SSS_ok t : 0 <= micro t < 1000000 -> render_directive D_SSS t = spec_directive D_SSS t.
-Proof. intros H. change (render_directive D_SSS t) with (micro_prefix 3 t). now rewrite (micro_dir 3 3). Qed.
+Proof. intros H. change (render_directive D_SSS t) with (micro_prefix 3 t). rewrite (micro_dir 3 3) by (try assumption; lia). reflexivity. Qed.
 Lemma SSSS_ok t : 0 <= micro t < 1000000 -> render_directive D_SSSS t = spec_directive D_SSSS t.
-Proof. intros H. change (render_directive D_SSSS t) with (micro_prefix 4 t). now rewrite (micro_dir 4 2). Qed.
+Proof. intros H. change (render_directive D_SSSS t) with (micro_prefix 4 t). rewrite (micro_dir 4 2) by (try assumption; lia). reflexivity. Qed.
 Lemma SSSSS_ok t : 0 <= micro t < 1000000 -> render_directive D_SSSSS t = spec_directive D_SSSSS t.
-Proof. intros H. change (render_directive D_SSSSS t) with (micro_prefix 5 t). now rewrite (micro_dir 5 1). Qed.
+Proof. intros H. change (render_directive D_SSSSS t) with (micro_prefix 5 t). rewrite (micro_dir 5 1) by (try assumption; lia). reflexivity. Qed.
 
 (* --- every directive --- *)
 Lemma valid_day_31 t : valid_dt t -> 1 <= day t <= 31.
@@ -634,8 +635,335 @@ Lemma directive_meets_doc_partial_lemma d t : valid_dt t ->
 Proof.
   intros V Hy Hw.
   destruct (directive_eq_dec d D_y) as [->|Ny].
-  - apply y_ok_below_100. destruct V as [[Hyr _] _]. lia.
+  - apply y_ok_below_100. destruct V as [[Hyr _] _].
+    destruct (Z.lt_ge_cases (year t) 100); [lia | exfalso; apply Hy; split; [reflexivity|assumption]].
   - destruct (directive_eq_dec d D_ww) as [->|Nw].
-    + destruct V as [[_ [Hm Hd]] _]. apply ww_ok_from_week_10; try assumption. lia.
+    + destruct V as [[_ [Hm Hd]] _]. apply ww_ok_from_week_10; try assumption.
+      destruct (Z.lt_ge_cases (doc_week_of_year t) 10); [exfalso; apply Hw; split; [reflexivity|assumption] | assumption].
     + now apply directive_meets_doc_lemma.
+Qed.
+
+(* ------------------------------------------------------------------ *)
+(* the format scanner: a format is the concatenation of its parts        *)
+(* ------------------------------------------------------------------ *)
+Lemma lookup_key d : lookup (key d) = Some d.
+Proof. destruct d; vm_compute; reflexivity. Qed.
+
+Lemma key_alpha d : forallb is_alpha (key d) = true.
+Proof. destruct d; vm_compute; reflexivity. Qed.
+
+Lemma key_nonempty d : exists c s, key d = c :: s.
+Proof. destruct d; vm_compute; eexists; eexists; reflexivity. Qed.
+
+Lemma decode_field_key t d : decode_field t (key d) = render_directive d t.
+Proof. unfold decode_field. now rewrite lookup_key. Qed.
+
+Lemma scan_nil ins inf fld : scan [] ins inf fld = flush inf fld.
+Proof. reflexivity. Qed.
+
+Lemma scan_cons c rest ins inf fld :
+  scan (c :: rest) ins inf fld =
+    if (c =? c_quote)%N then
+      match rest with
+      | [] => flush inf fld
+      | c2 :: rest2 =>
+        if (c2 =? c_quote)%N then flush inf fld ++ Out c_quote :: scan rest2 ins false []
+        else if ins then scan rest false inf fld
+        else flush inf fld ++ scan rest true false []
+      end
+    else if ins then Out c :: scan rest ins inf fld
+    else if negb (is_alpha c) then flush inf fld ++ Out c :: scan rest ins false []
+    else if inf then scan rest ins true (fld ++ [c])
+    else scan rest ins true [c].
+Proof. destruct rest; reflexivity. Qed.
+
+Lemma alpha_not_quote c : is_alpha c = true -> (c =? c_quote)%N = false.
+Proof. intros H. destruct (N.eqb_spec c c_quote) as [->|]; [discriminate|reflexivity]. Qed.
+
+(* a run of letters is collected into the field *)
+Lemma scan_letters : forall s rest fld, forallb is_alpha s = true ->
+  scan (s ++ rest) false true fld = scan rest false true (fld ++ s).
+Proof.
+  induction s as [|a s IH]; intros rest fld H.
+  - now rewrite app_nil_r.
+  - cbn [forallb] in H. apply andb_true_iff in H as [Ha Hs].
+    cbn [app]. rewrite scan_cons, (alpha_not_quote a Ha), Ha. cbn [negb].
+    rewrite IH by assumption. now rewrite <- app_assoc.
+Qed.
+
+Lemma scan_directive d rest : scan (key d ++ rest) false false [] = scan rest false true (key d).
+Proof.
+  destruct (key_nonempty d) as [c [s E]]. pose proof (key_alpha d) as A. rewrite E in *.
+  cbn [forallb] in A. apply andb_true_iff in A as [Ac As].
+  cbn [app]. rewrite scan_cons, (alpha_not_quote c Ac), Ac. cbn [negb].
+  now rewrite scan_letters.
+Qed.
+
+(* unquoted literal text passes through *)
+Lemma scan_literal : forall s rest, Forall (fun c => is_alpha c = false /\ c <> c_quote) s ->
+  scan (s ++ rest) false false [] = List.map Out s ++ scan rest false false [].
+Proof.
+  induction s as [|a s IH]; intros rest H; [reflexivity|].
+  pose proof (Forall_inv H) as [Ha Hq]. pose proof (Forall_inv_tail H) as Hs.
+  cbn [app List.map]. rewrite scan_cons. apply N.eqb_neq in Hq. rewrite Hq, Ha. cbn [negb flush app].
+  now rewrite IH.
+Qed.
+
+Lemma scan_literal_in_field a s rest fld : is_alpha a = false -> a <> c_quote ->
+  scan (a :: s ++ rest) false true fld = Field fld :: Out a :: scan (s ++ rest) false false [].
+Proof.
+  intros Ha Hq. rewrite scan_cons. apply N.eqb_neq in Hq. rewrite Hq, Ha. reflexivity.
+Qed.
+
+Definition starts_with_quote (s : str) : bool := match s with c :: _ => (c =? c_quote)%N | [] => false end.
+
+(* inside quotes everything passes through, '' gives ' , and the closing quote ends the string *)
+Lemma scan_in_string : forall s rest, starts_with_quote rest = false ->
+  scan (escape_quotes s ++ c_quote :: rest) true false [] = List.map Out s ++ scan rest false false [].
+Proof.
+  induction s as [|a s IH]; intros rest Hr.
+  - cbn [escape_quotes app List.map]. rewrite scan_cons. rewrite N.eqb_refl.
+    destruct rest as [|c2 r]; [reflexivity|]. cbn [starts_with_quote] in Hr. now rewrite Hr.
+  - cbn [escape_quotes List.map]. destruct (N.eqb_spec a c_quote) as [->|Hne].
+    + cbn [app]. rewrite scan_cons, !N.eqb_refl. cbn [flush app]. now rewrite IH.
+    + cbn [app]. rewrite scan_cons. apply N.eqb_neq in Hne. rewrite Hne. now rewrite IH.
+Qed.
+
+Lemma scan_open_quote a s rest inf fld : a <> c_quote ->
+  scan (c_quote :: escape_quotes (a :: s) ++ c_quote :: rest) false inf fld
+  = flush inf fld ++ scan (escape_quotes (a :: s) ++ c_quote :: rest) true false [].
+Proof.
+  intros Ha. rewrite scan_cons, N.eqb_refl. cbn [escape_quotes]. apply N.eqb_neq in Ha. rewrite Ha.
+  cbn [app]. now rewrite Ha.
+Qed.
+
+Lemma unparse_cons p ps : unparse (p :: ps) = unparse_part p ++ unparse ps.
+Proof. reflexivity. Qed.
+
+Lemma separable_head_no_quote q ps : separable (q :: ps) -> quote_head q = false ->
+  starts_with_quote (unparse (q :: ps)) = false.
+Proof.
+  intros [Hok _] Hq. rewrite unparse_cons. destruct q as [d|s|s|]; try discriminate.
+  - cbn [unparse_part]. destruct (key_nonempty d) as [c [s E]]. pose proof (key_alpha d) as A. rewrite E in *.
+    cbn [forallb] in A. apply andb_true_iff in A as [Ac _]. cbn [app starts_with_quote]. now apply alpha_not_quote.
+  - cbn [unparse_part part_ok] in *. destruct Hok as [Hne Hall]. destruct s as [|a s]; [contradiction|].
+    pose proof (Forall_inv Hall) as [_ Hq']. cbn [app starts_with_quote]. now apply N.eqb_neq.
+Qed.
+
+Lemma flush_false fld : flush false fld = []. Proof. reflexivity. Qed.
+Lemma flush_true fld : flush true fld = [Field fld]. Proof. reflexivity. Qed.
+
+Lemma scan_parts : forall ps, separable ps ->
+  scan (unparse ps) false false [] = flat_map items_of ps /\
+  (match ps with PDir _ :: _ => True | _ => forall f, scan (unparse ps) false true f = Field f :: flat_map items_of ps end).
+Proof.
+  induction ps as [|p ps IH]; intros Hsep.
+  - split; [reflexivity|]. intros f. reflexivity.
+  - destruct Hsep as [Hok [Hnext Hrest]]. specialize (IH Hrest). destruct IH as [IH1 IH2].
+    rewrite unparse_cons. cbn [flat_map].
+    destruct p as [d|s|s|].
+    + (* directive *)
+      split; [|exact I]. cbn [unparse_part items_of app]. rewrite scan_directive.
+      destruct ps as [|q ps']; [reflexivity|].
+      destruct q; try discriminate; apply IH2.
+    + (* literal *)
+      cbn [part_ok] in Hok. destruct Hok as [Hne Hall]. cbn [unparse_part items_of].
+      split.
+      * rewrite scan_literal by assumption. now rewrite IH1.
+      * intros f. destruct s as [|a s]; [contradiction|].
+        pose proof (Forall_inv Hall) as [Ha Hq]. pose proof (Forall_inv_tail Hall) as Hs.
+        cbn [app]. rewrite scan_literal_in_field by assumption.
+        rewrite scan_literal by assumption. rewrite IH1. reflexivity.
+    + (* quoted *)
+      cbn [part_ok] in Hok. destruct Hok as [Hne Hhd]. destruct s as [|a s]; [contradiction|]. cbn [hd] in Hhd.
+      assert (starts_with_quote (unparse ps) = false) as Hq.
+      { destruct ps as [|q ps']; [reflexivity|]. now apply separable_head_no_quote. }
+      cbn [unparse_part items_of]. rewrite <- !app_comm_cons, <- !app_assoc. cbn [app].
+      split.
+      * rewrite scan_open_quote by assumption. rewrite flush_false. cbn [app].
+        rewrite scan_in_string by assumption. now rewrite IH1.
+      * intros f. rewrite scan_open_quote by assumption. rewrite flush_true. cbn [app].
+        rewrite scan_in_string by assumption. now rewrite IH1.
+    + (* '' *)
+      cbn [unparse_part items_of app]. split.
+      * rewrite scan_cons, !N.eqb_refl. rewrite flush_false. cbn [app]. now rewrite IH1.
+      * intros f. rewrite scan_cons, !N.eqb_refl. rewrite flush_true. cbn [app]. now rewrite IH1.
+Qed.
+
+Lemma render_out s t : flat_map (render_item t) (List.map Out s) = s.
+Proof. induction s as [|a s IH]; [reflexivity|]. cbn [List.map flat_map render_item app]. now rewrite IH. Qed.
+
+Lemma render_items_of t p : render_items t (items_of p) = render_part t p.
+Proof.
+  unfold render_items. destruct p as [d|s|s|]; cbn [items_of render_part].
+  - cbn [flat_map render_item]. now rewrite app_nil_r, decode_field_key.
+  - apply render_out.
+  - apply render_out.
+  - reflexivity.
+Qed.
+
+Lemma render_items_app t a b : render_items t (a ++ b) = render_items t a ++ render_items t b.
+Proof. unfold render_items. apply flat_map_app. Qed.
+
+Lemma render_parts t ps : render_items t (flat_map items_of ps) = flat_map (render_part t) ps.
+Proof.
+  induction ps as [|p ps IH]; [reflexivity|]. cbn [flat_map]. now rewrite render_items_app, render_items_of, IH.
+Qed.
+
+Lemma unsupported_app a b : unsupported (a ++ b) = unsupported a ++ unsupported b.
+Proof. unfold unsupported. apply flat_map_app. Qed.
+
+Lemma unsupported_out s : unsupported (List.map Out s) = [].
+Proof. induction s as [|a s IH]; [reflexivity|]. exact IH. Qed.
+
+Lemma unsupported_parts ps : unsupported (flat_map items_of ps) = [].
+Proof.
+  induction ps as [|p ps IH]; [reflexivity|]. cbn [flat_map]. rewrite unsupported_app, IH, app_nil_r.
+  destruct p as [d|s|s|]; cbn [items_of].
+  - unfold unsupported. cbn [flat_map]. now rewrite lookup_key.
+  - apply unsupported_out.
+  - apply unsupported_out.
+  - reflexivity.
+Qed.
+
+Lemma format_concat_lemma ps t : separable ps ->
+  decode_date_format (unparse ps) t = flat_map (render_part t) ps /\
+  unsupported (scan (unparse ps) false false []) = [].
+Proof.
+  intros H. destruct (scan_parts ps H) as [E _]. unfold decode_date_format. rewrite E. split.
+  - apply render_parts.
+  - apply unsupported_parts.
+Qed.
+
+Lemma literal_passthrough_lemma s t : Forall (fun c => is_alpha c = false /\ c <> c_quote) s ->
+  decode_date_format s t = s.
+Proof.
+  intros H. unfold decode_date_format. rewrite <- (app_nil_r s) at 1. rewrite scan_literal by assumption.
+  rewrite scan_nil, flush_false, app_nil_r. apply render_out.
+Qed.
+
+Lemma quoted_passthrough_lemma s t : s <> [] -> hd 0%N s <> c_quote ->
+  decode_date_format (c_quote :: escape_quotes s ++ [c_quote]) t = s.
+Proof.
+  intros Hne Hhd.
+  destruct (format_concat_lemma [PQuoted s] t) as [E _].
+  - cbn [separable part_ok]. tauto.
+  - cbn [unparse flat_map unparse_part render_part] in E. rewrite !app_nil_r in E. exact E.
+Qed.
+
+(* the pinned scanner: a doubled quote inside a directive run *)
+Lemma pinned_doubled_quote_refuted :
+  decode_date_format_pinned (L"d''d") (mkdt 2023 5 7 10 4 5 0) = L"'07" /\
+  flat_map (render_part (mkdt 2023 5 7 10 4 5 0)) [PDir D_d; PQuote; PDir D_d] = L"7'7" /\
+  unparse [PDir D_d; PQuote; PDir D_d] = L"d''d".
+Proof. vm_compute. repeat split. Qed.
+
+(* ------------------------------------------------------------------ *)
+(* documented ranges, witnesses                                        *)
+(* ------------------------------------------------------------------ *)
+Lemma valid_dtb_spec t : valid_dtb t = true -> valid_dt t.
+Proof.
+  unfold valid_dtb, valid_dt, valid_date. rewrite !andb_true_iff, !Z.leb_le, !Z.ltb_lt. tauto.
+Qed.
+
+Lemma doc_field_in_range_lemma d t lo hi : valid_dt t -> doc_range d = Some (lo, hi) ->
+  exists w v, doc_field d t = Num w v /\ lo <= v <= hi.
+Proof.
+  intros V R. pose proof (valid_day_31 t V) as D31.
+  destruct V as [[Hy [Hm Hd]] [Hh [Hmi [Hs Hus]]]].
+  pose proof (day_of_year_bounds (year t) (month t) (day t) Hm Hd) as Hdoy.
+  pose proof (year_len_bounds (year t)) as Hyl.
+  pose proof (doy_ok t Hm) as Edoy. unfold py_day_of_year in Edoy.
+  pose proof (W_value t D31) as [_ HW]. pose proof (F_value t D31) as [_ HF].
+  pose proof (ww_value t Hm Hd) as [_ Hww].
+  destruct d; cbn [doc_range] in R; inversion R; subst lo hi; cbn [doc_field];
+    eexists; eexists; (split; [reflexivity|]); try lia.
+  all: destruct (hour t <? 12) eqn:E; [apply Z.ltb_lt in E|apply Z.ltb_ge in E]; lia.
+Qed.
+
+Lemma pinned_k_refuted_lemma :
+  let t := mkdt 2023 1 1 10 0 0 0 in
+  valid_dt t /\ pinned_k t = L"124" /\ pinned_kk t = L"124" /\ spec_directive D_k t = L"10" /\ spec_directive D_kk t = L"10" /\
+  pinned_k (mkdt 2023 1 1 20 0 0 0) = L"224".
+Proof. split; [apply valid_dtb_spec; reflexivity|]. vm_compute. repeat split. Qed.
+
+Lemma y_refuted_lemma : exists t, valid_dt t /\ render_directive D_y t <> spec_directive D_y t.
+Proof.
+  exists (mkdt 2023 5 7 10 4 5 0). split; [apply valid_dtb_spec; reflexivity|]. vm_compute. discriminate.
+Qed.
+
+Lemma ww_refuted_lemma : exists t, valid_dt t /\ render_directive D_ww t <> spec_directive D_ww t.
+Proof.
+  exists (mkdt 2023 1 9 10 4 5 0). split; [apply valid_dtb_spec; reflexivity|]. vm_compute. discriminate.
+Qed.
+
+(* the pinned validator rejects a format the scanner renders *)
+Lemma validator_pinned_refuted_lemma :
+  validate_format_pinned (L"h 'o''clock' a") = false /\ validate_format (L"h 'o''clock' a") = true /\
+  decode_date_format (L"h 'o''clock' a") (mkdt 2023 5 7 10 4 5 0) = L"10 o'clock am".
+Proof. vm_compute. repeat split. Qed.
+
+(* ------------------------------------------------------------------ *)
+(* civil_from_days and days_from_civil are mutually inverse             *)
+(* ------------------------------------------------------------------ *)
+(* one 400-year cycle (146097 days) is swept; the cycle then repeats *)
+Definition civil_check (n : Z) : bool :=
+  let '(y, m, d) := civil_from_days n in
+  (1 <=? y) && (1 <=? m) && (m <=? 12) && (1 <=? d) && (d <=? days_in_month y m) && (days_from_civil y m d =? n).
+
+Lemma civil_cycle_sweep : forallb civil_check (zrange 1 (N.to_nat 146097)) = true.
+Proof. vm_compute. reflexivity. Qed.
+
+Lemma is_leap_period y a : is_leap (y + 400 * a) = is_leap y.
+Proof. unfold is_leap. lia. Qed.
+
+Lemma days_in_month_period y a m : days_in_month (y + 400 * a) m = days_in_month y m.
+Proof. unfold days_in_month. now rewrite is_leap_period. Qed.
+
+Lemma days_from_civil_period y a m d : days_from_civil (y + 400 * a) m d = days_from_civil y m d + 146097 * a.
+Proof.
+  unfold days_from_civil, days_before_month. rewrite is_leap_period.
+  unfold days_before_year. lia.
+Qed.
+
+Lemma civil_from_days_period n a :
+  civil_from_days (n + 146097 * a) = let '(y, m, d) := civil_from_days n in (y + 400 * a, m, d).
+Proof.
+  unfold civil_from_days.
+  replace (n + 146097 * a - 1) with (n - 1 + a * 146097) by lia.
+  rewrite Z.div_add, Z.mod_add by lia.
+  set (r := (n - 1) mod 146097). set (q := (n - 1) / 146097).
+  cbv zeta.
+  destruct ((r mod 36524 mod 1461 / 365 =? 4) || (r / 36524 =? 4)).
+  - f_equal. f_equal. lia.
+  - destruct (ord_month_day _ _) as [mo dd]. f_equal. f_equal. lia.
+Qed.
+
+Lemma civil_from_days_sound n : 1 <= n ->
+  let '(y, m, d) := civil_from_days n in
+  1 <= y /\ 1 <= m <= 12 /\ 1 <= d <= days_in_month y m /\ days_from_civil y m d = n.
+Proof.
+  intros Hn.
+  set (a := (n - 1) / 146097). set (r := (n - 1) mod 146097).
+  assert (n = (r + 1) + 146097 * a) as -> by (unfold a, r; lia).
+  assert (0 <= a) by (unfold a; lia).
+  assert (1 <= r + 1 < 1 + Z.of_nat (N.to_nat 146097)) as Hr by (unfold r; lia).
+  pose proof (forall_range civil_check 1 _ civil_cycle_sweep (r + 1) Hr) as C.
+  rewrite civil_from_days_period. unfold civil_check in C.
+  destruct (civil_from_days (r + 1)) as [[y m] d].
+  rewrite !andb_true_iff, !Z.leb_le, Z.eqb_eq in C.
+  rewrite days_in_month_period, days_from_civil_period. lia.
+Qed.
+
+Lemma civil_from_days_inverse_lemma y m d : 1 <= y -> 1 <= m <= 12 -> 1 <= d <= days_in_month y m ->
+  civil_from_days (days_from_civil y m d) = (y, m, d).
+Proof.
+  intros Hy Hm Hd.
+  assert (1 <= days_from_civil y m d) as Hn.
+  { unfold days_from_civil. assert (0 <= days_before_year y) by (unfold days_before_year; lia).
+    pose proof (day_of_year_bounds y m d Hm Hd). unfold day_of_year in *. lia. }
+  pose proof (civil_from_days_sound _ Hn) as S.
+  destruct (civil_from_days (days_from_civil y m d)) as [[y' m'] d'].
+  destruct S as [_ [Hm' [Hd' E]]].
+  now apply days_from_civil_injective.
 Qed.
